@@ -87,7 +87,7 @@ mutual
       · simp only [erase, treeOfContent, eraseList_append, hts.erase, K, eraseList_headKids,
           List.append_assoc]
       · intro h hh
-        simp only [handles, handlesList_append, List.mem_cons, List.mem_append] at hh
+        simp only [handles, handlesList_append_ff, List.mem_cons, List.mem_append] at hh
         simp only [FContent.size]
         rcases hh with rfl | hh | hh
         · omega
@@ -95,7 +95,7 @@ mutual
         · have := hts.bounds h hh
           simp only [f1] at this
           omega
-      · simp only [handles, handlesList_append, List.nodup_cons, List.mem_append, not_or]
+      · simp only [handles, handlesList_append_ff, List.nodup_cons, List.mem_append, not_or]
         refine ⟨⟨?_, ?_⟩, List.nodup_append.2 ⟨hKn, hts.nodup, ?_⟩⟩
         · rw [mem_handlesList_headKids]; omega
         · intro hh; have := hts.bounds _ hh; simp only [f1] at this; omega
